@@ -60,19 +60,6 @@ def bag(items):
   return sorted((json.loads(k) + [n] for k, n in c.items()), key=canon)
 
 
-def sort_exp(beh):
-  """canonical order for the set-valued fields of exported expectations"""
-  for st in beh:
-    e = st["exp"]
-    if "out" in e:
-      e["out"] = sorted(e["out"], key=canon)
-    if st["a"] == "Tick" and "msgs" in e:
-      e["msgs"] = sorted(e["msgs"], key=canon)
-    if "fq" in e:
-      e["fq"] = sorted(e["fq"])
-  return beh
-
-
 class Base(object):
   def _init_syms(self, variant, dpid):
     self.ipmap = dict(IP_FAMILIES[variant % len(IP_FAMILIES)])
